@@ -25,4 +25,11 @@ def propagateDftNoTilt (data : List (Fld K)) (αr αc : R) (shapeOut propOut : I
       { arr := dft2 f.arr αr αc ish.1 ish.2 (RealLike.ofInt psh.1) (RealLike.ofInt psh.2) f.o0 f.o1 true,
         o0 := isft.1, o1 := isft.2 }
 
+/-- `propagate_dft` (builderB's `propagateDft`: generated window block, optional output mask) on fields that all carry the same
+tilt list, hence the same shift `fix + sub` — e.g. after Tilt planes shared by all segments or `Wavefront(tilt=…)` -/
+def propagateDftCommon (data : List (Fld K)) (αr αc : R) (S0 S1 P0 P1 os : Int) (mask : Option Extent)
+    (fix0 fix1 : Int) (sub0 sub1 : R) : List (Fld K) :=
+  propagateDft (data.map fun f => ({ fld := f, fix0 := fix0, fix1 := fix1, sub0 := sub0, sub1 := sub1 } : TField K R))
+    αr αc S0 S1 P0 P1 os mask
+
 end Lentil
